@@ -305,13 +305,20 @@ def N.scan (s : N) (p : El) (kd : Kind) (k : Key) (v : String) : Option El :=
 def N.scanCI (s : N) (p : El) (kd : Kind) (v : String) : Option El :=
   (s.kids p).find? (fun c => c.kind = kd && ((s.info c).ident).map lower == some (lower v))
 
+/-- `NamespaceManager.lookup`: the parent's table when it indexes the key and has a hit, else the
+    linear scan (repaired behaviour: parents without table, keys the DEFAULT class does not index, and
+    children attached without callbacks fall through to the scan). -/
 def N.lookup (s : N) (p : El) (kd : Kind) (k : Key) (v : String) : Option El :=
-  if s.hasTbl p then
-    (match k with
-      | .name => s.names p kd v
-      | .ident => match s.tpol p with
-        | .edif => s.idents p kd (lower v)
-        | .default => s.scan p kd .ident v)
-  else s.scan p kd k v
+  let hit : Option El :=
+    if s.hasTbl p then
+      (match k with
+        | .name => s.names p kd v
+        | .ident => match s.tpol p with
+          | .edif => s.idents p kd (lower v)
+          | .default => none)
+    else none
+  match hit with
+  | some e => some e
+  | none => s.scan p kd k v
 
 end Spydr.Names
